@@ -522,7 +522,7 @@ def t_generate_sessions():
         s1.oblige("post:C06 the session is created with the start time accumulated so far, and with consecutive ids",
                   z3.And(s1.read(sess, "session_start_time").term == start.term, s1.read(sess, "session_id").term == isess.term), "post")
         s1.oblige("post:C06 the next session starts where this one ends: start time advances by exactly this session's iterationSteps",
-                  z3.And(s1.env["session_start_time"].term == start.term + dyn_int(sget(st0, setting, "iterationSteps")), s1.env["i_session"].term == isess.term + 1), "post")
+                  z3.And(coerce(s1.env["session_start_time"], ("int",)) == start.term + dyn_int(sget(st0, setting, "iterationSteps")), coerce(s1.env["i_session"], ("int",)) == isess.term + 1), "post")
     obl.append({"name": QG + "[session]/cover:paths", "pc": [], "goal": z3.BoolVal(n >= 1), "kind": "cover"})
     info = {"function": QG + " (per configured session, without the event-creation part)", "source_sha": get_src().source_hash(QG), "where": get_src().where(QG), "paths": n,
             "assumptions": sorted(ex.used_assumptions)}
